@@ -4,7 +4,12 @@
 (* case  : API description and a SESSION: the calls made one after the other  *)
 (*         through one client.Runtime to one server (a single call on a      *)
 (*         long-lived shared server, or several on a server built for the    *)
-(*         case), each with the response the handler is to return            *)
+(*         case), each with the response the handler is to return; or a      *)
+(*         BATCH of calls of one operation made concurrently (conc goroutines *)
+(*         at a time), whose events are emitted in call order.  The Runtime   *)
+(*         may have static query parameters in its base path, connection     *)
+(*         re-use enabled; handlers may deliver the body in pieces; upload   *)
+(*         sources may fail.                                                 *)
 (* event : exchange {step, op, media, supplied:[{name, loc, kind, vs, off}], *)
 (*         err, handled_op, received:[{name, vs}], handler:{code, hdrs,      *)
 (*         body}, seen:{code, hdrs, body}, wire_path, wire_query, setup}     *)
@@ -19,20 +24,25 @@ EXTENDS RoundTrip, Json, IOUtils
 
 VARIABLES l, st, skipping, fails, cs
 
-XInit(e) == [ops |-> [i \in 1..Len(e.steps) |-> e.steps[i].op]]
+\* the declared calls: listed (steps), or - concurrent batches - batch.count calls of batch.op, call i with values of its own
+XInit(e) == [ops |-> [i \in 1..Len(e.steps) |-> e.steps[i].op], bop |-> e.batch.op, bn |-> e.batch.count]
+
+Declared(s, e) == IF s.bn > 0 THEN e.step \in 1..s.bn /\ e.op = s.bop
+                  ELSE e.step \in 1..Len(s.ops) /\ s.ops[e.step] = e.op
 
 Call(e) == [op |-> e.op, media |-> e.media, params |-> e.supplied]
 Obs(e)  == [err |-> e.err, handled_op |-> e.handled_op, received |-> e.received, handler |-> e.handler, seen |-> e.seen]
 
 XAllowed(s, e) ==
   CASE e.ev = "exchange" -> /\ e.setup
-                            /\ e.step \in 1..Len(s.ops) /\ s.ops[e.step] = e.op      \* the exchange is the declared step
+                            /\ Declared(s, e)                                        \* the exchange is the declared step
                             /\ ExchangeOK(Call(e), Obs(e))
     [] OTHER -> FALSE
 
 XWhy(s, e) ==
   CASE e.ev = "exchange" -> IF ~e.setup THEN "api-not-built"
-                            ELSE IF ~(e.step \in 1..Len(s.ops) /\ s.ops[e.step] = e.op) THEN "not-the-declared-step"
+                            ELSE IF ~Declared(s, e) THEN "not-the-declared-step"
+                            ELSE IF s.bn > 0 THEN WhyExchange(Call(e), Obs(e)) \o "/concurrent"
                             ELSE IF e.step > 1 THEN WhyExchange(Call(e), Obs(e)) \o "/after-history"
                             ELSE WhyExchange(Call(e), Obs(e))
     [] OTHER -> "unknown-event"
